@@ -9,6 +9,7 @@ metamorphic relation (C09, C12, C13, C14).  Label: bounded -- evidence by testin
 import collections
 import itertools
 import json
+import math
 import multiprocessing
 import os
 import random
@@ -106,7 +107,39 @@ def _thresholds(case, spec):
     return _grid(spec) if case.get("thresholds", "grid") == "grid" else case["thresholds"]
 
 
+def check_float_boundary(case, R):
+    """C02 on the float-boundary family: the key of ex:p (direct) / ex:inc (inverse) of the single class
+    is present iff float(k)/float(N) >= t -- present at t = k/N, absent at nextafter(k/N, 1)."""
+    M, S, G = U.lib()
+    pid, nt, k, N = case["pid"], case["nt"], case["k"], case["N"]
+    lab = U.label_of(G.CLASS_A)
+    l2c = {lab: G.CLASS_A}
+    for cfg in case["cfgs"]:
+        for t in case["thresholds"]:
+            try:
+                nd = R.run(nt, cfg, t)
+            except U.Skipped:
+                continue
+            want = float(k) / float(N) >= t
+            shapes = dict((sh["label"], sh) for sh in nd)
+            keys = set(U.con_key(c, l2c, M.RDF_TYPE) for c in shapes[lab]["cons"]) if lab in shapes else set()
+            probes = [(S.DIRECT, U.FB_PROP, M.XSD_STRING)]
+            if cfg.get("inverse_paths"):
+                probes.append((S.INVERSE, U.FB_INC, S.NONLIT))
+            for kx in probes:
+                if (kx in keys) != want:
+                    rel = "==" if t == float(k) / N else ("<" if t < float(k) / N else ">")
+                    R.emit("%s:threshold-boundary:float:%s" % (pid, kx[0]),
+                           "class with N=%d instances, %d of them have %s %s: at acceptance_threshold=%r (%s k/N=%r) the constraint is %s "
+                           "but float(k)/float(N) >= t is %s (boundary frequency == threshold must be kept)"
+                           % (N, k, "^" if kx[0] == S.INVERSE else "", kx[1], t, rel, float(k) / N,
+                              "present" if kx in keys else "absent", want),
+                           dict(case, cfgs=[cfg], thresholds=[t]), observed=kx in keys, expected=want)
+
+
 def check_C02(case, R):
+    if case.get("kind") == "float-boundary":
+        return check_float_boundary(case, R)
     nt = case["nt"]
     specs = _SpecCache(U.parse_nt(nt))
     for cfg in case["cfgs"]:
@@ -410,6 +443,11 @@ def check_C14(case, R):
     spec = U.spec_for(T, _merge(cfg, {"inverse_paths": True}))
     l2c = _l2c(spec)
     sR = dict((sh["label"], sh) for sh in dR)
+    hits = U.literal_link_hits(T)
+
+    def lit_hit(lab, p):
+        C = l2c.get(lab)
+        return C is not None and any(M.node_id(x) in hits.get(p, ()) for x in spec.inst.get(C, ()))
     if set(sR) != set(s1):
         emit("C14:reverse:shape-set", "shapes of reverse(G) %s vs shapes of G %s" % (sorted(sR), sorted(s1)), sorted(sR), sorted(s1))
     nonlit = ("IRI", "BNode", "shape", "NONLITERAL")
@@ -423,6 +461,13 @@ def check_C14(case, R):
             # blank-node subjects give no shape reference in the inverse direction (by design), so a reference
             # may reach the threshold only in reverse(G)
             drv = dict((p, c) for p, c in drv.items() if p in inv)
+        if set(inv) != set(drv) and set(inv) - set(drv) and all(lit_hit(lab, p) for p in set(inv) - set(drv)) \
+                and not set(drv) - set(inv):
+            emit("C14:literal-counted-as-incoming-link",
+                 "%s: '^' constraints on %s exist only because a literal whose text is the identity of an instance is treated as "
+                 "an incoming link (reverse(G) has no such direct constraint)" % (lab, sorted(set(inv) - set(drv))),
+                 sorted(inv), sorted(drv))
+            continue
         if set(inv) != set(drv):
             emit("C14:reverse:key-set", "%s: inverse keys of G %s vs non-literal direct keys of reverse(G) %s"
                  % (lab, sorted(inv), sorted(drv)), sorted(inv), sorted(drv))
@@ -437,11 +482,19 @@ def check_C14(case, R):
                 fr = dict(((k["value"], k["card"]), k["count"]) for k in
                           [x for x in cr["comments"]] + ([cr] if cr["card"] not in ("*", "?") else []) if k["value"][0] in ("IRI", "BNode"))
                 bad = [(k, fi[k], fr[k]) for k in fi if k in fr and fi[k] != fr[k]]
-                if bad:
+                if bad and lit_hit(lab, p):
+                    emit("C14:literal-counted-as-incoming-link", "%s ^%s: IRI/BNode figures %r exceed those of reverse(G); a literal "
+                         "with the identity string of an instance is an object of %s" % (lab, p, bad, p), bad, None)
+                elif bad:
                     emit("C14:reverse:figure:node-kind", "%s ^%s: IRI/BNode figures differ from reverse(G): %r" % (lab, p, bad), bad, None)
                 continue
             if _con_sig(ci) != _con_sig(cr):
                 if (S.INVERSE, p, S.NONLIT) in tie:
+                    continue
+                if lit_hit(lab, p):
+                    emit("C14:literal-counted-as-incoming-link", "%s: '^ %s' in G is %r but '%s' in reverse(G) is %r; a literal with "
+                         "the identity string of an instance is an object of %s" % (lab, p, _con_sig(ci)[1:], p, _con_sig(cr)[1:], p),
+                         repr(_con_sig(ci)), repr(_con_sig(cr)))
                     continue
                 emit("C14:reverse:constraint-differs", "%s: '^ %s' in G is %r but '%s' in reverse(G) is %r"
                      % (lab, p, _con_sig(ci)[1:], p, _con_sig(cr)[1:]), repr(_con_sig(ci)), repr(_con_sig(cr)))
@@ -532,6 +585,8 @@ def _selector_text(sel):
         return "{FOCUS %s _}" % pn(sel["p"])
     if f == "focus-obj":
         return "{_ %s FOCUS}" % pn(sel["p"])
+    if f == "focus-po":
+        return "{FOCUS %s %s}" % (pn(sel["p"]), pn(sel["o"]))
     if f == "sparql-type":
         return 'SPARQL "select ?s where {?s a %s}"' % pn(sel["cls"])
     raise ValueError(f)
@@ -545,6 +600,8 @@ def _selector_nodes(sel, T):
         return [M.IRI(sel["node"])], 1
     if f in ("focus-type", "sparql-type"):
         sols = [s for (s, p, o) in T if p == M.RDF_TYPE and o == M.IRI(sel["cls"])]
+    elif f == "focus-po":
+        sols = [s for (s, p, o) in T if p == sel["p"] and o == M.IRI(sel["o"])]
     elif f == "focus-subj":
         sols = [s for (s, p, o) in T if p == sel["p"]]
     else:
@@ -597,6 +654,8 @@ def check_C10(case, R):
         U.check_figures(tag, nd, spec, l2c, cfg, emit)
         U.check_keys(tag, nd, spec, l2c, t, emit)
         return
+    if kind == "mixed":
+        return _check_C10_mixed(case, R, T, emit)
     # shape maps
     items = case["items"]
     sm = "\n".join("%s@<%s>" % (_selector_text(it["sel"]), it["label"]) for it in items)
@@ -637,6 +696,59 @@ def check_C10(case, R):
     l2c = dict((lab, lab) for lab in spec.N)
     U.check_figures("C10:shapemap", nd, spec, l2c, cfg, emit)
     U.check_keys("C10:shapemap", nd, spec, l2c, t, emit)
+
+
+def _check_C10_mixed(case, R, T, emit):
+    """all_classes_mode=True together with a shape map: every label shape has exactly the selector's nodes
+    AND every class with instances has its shape with N(C); figures/keys against one oracle in which a node
+    carries its shape-map labels and its classes."""
+    M, S, G = U.lib()
+    nt, cfg, t, items = case["nt"], case["cfg"], case["t"], case["items"]
+    pi = cfg.get("instantiation_property", M.RDF_TYPE)
+    sm = "\n".join("%s@<%s>" % (_selector_text(it["sel"]), it["label"]) for it in items)
+    full = _merge(cfg, {"all_classes_mode": True, "shape_map_raw": sm})
+    try:
+        nd0 = R.run(nt, full, 0)
+        nd = nd0 if t == 0 else R.run(nt, full, t)
+    except U.Skipped:
+        return
+    inst = collections.OrderedDict()
+    for it in items:
+        nodes, _ = _selector_nodes(it["sel"], T)
+        inst[it["label"]] = U.dedup(inst.get(it["label"], []) + nodes)
+    labels = set(inst)
+    for (s_, p_, o_) in T:
+        if p_ == pi and not M.is_literal(o_):
+            inst.setdefault(M.node_id(o_), [])
+            if s_ not in inst[M.node_id(o_)]:
+                inst[M.node_id(o_)].append(s_)
+    inst = collections.OrderedDict((k, v) for k, v in inst.items() if v)
+    spec = U.spec_for_instances(T, inst, inverse=bool(cfg.get("inverse_paths")), pi=pi)
+    l2c = dict((name if name in labels else U.label_of(name), name) for name in spec.N)
+    got0 = dict((sh["label"], sh) for sh in nd0)
+    bad = False
+    for lab, name in sorted(l2c.items()):
+        what = "label" if name in labels else "class"
+        if lab not in got0:
+            if any(not S.is_shape(e.k) for e in spec.cand(name, 0)):
+                bad = True
+                emit("C10:mixed-mode:%s-shape-missing" % what,
+                     "all_classes_mode + shape map %r: no shape %s although %s %s has %d node(s) %r"
+                     % (sm, lab, what, name, spec.N[name], [M.node_to_nt(x) for x in inst[name]][:6]), sorted(got0), lab)
+        elif got0[lab]["N"] != spec.N[name]:
+            bad = True
+            emit("C10:mixed-mode:%s-count" % what,
+                 "all_classes_mode + shape map %r: shape %s reports %r instances, %s %s has %d node(s) %r"
+                 % (sm, lab, got0[lab]["N"], what, name, spec.N[name], [M.node_to_nt(x) for x in inst[name]][:6]),
+                 got0[lab]["N"], spec.N[name])
+    for lab in sorted(set(got0) - set(l2c)):
+        bad = True
+        emit("C10:mixed-mode:unexpected-shape", "shape %s is neither a label of the shape map nor a class with instances" % lab,
+             lab, sorted(l2c))
+    if bad:
+        return
+    U.check_figures("C10:mixed-mode", nd, spec, l2c, cfg, emit)
+    U.check_keys("C10:mixed-mode", nd, spec, l2c, t, emit)
 
 
 CHECKS = {"C01": check_C01, "C02": check_C02, "C09": check_C09, "C10": check_C10, "C12": check_C12,
@@ -703,6 +815,18 @@ def gen_cases(pid, tier, seed):
                 sw = {} if j < 2 else _switch_combo(rng)
                 cfgs.append(_merge(_mode_cfg(mode), {"inverse_paths": True} if inv else {}, sw))
             cases.append({"pid": pid, "origin": origin, "nt": U.to_nt(T), "cfgs": cfgs, "thresholds": "grid"})
+        # deterministic float-boundary family (same in every tier): class sizes with (k/N)*N != k in doubles
+        for (k, N, tag) in U.FLOAT_BOUNDARY_PAIRS:
+            t = float(k) / N
+            nt = U.to_nt(U.float_boundary_graph(k, N))
+            four = [_merge(_mode_cfg(m), {"inverse_paths": True} if inv else {}) for m in ("A", "all") for inv in (False, True)]
+            if pid == "C02":
+                cases.append({"pid": pid, "kind": "float-boundary", "origin": "float-boundary:" + tag, "nt": nt, "k": k, "N": N,
+                              "cfgs": four if tag != "exact" else [four[0], four[3]],
+                              "thresholds": [t] if tag == "exact" else [math.nextafter(t, 0), t, math.nextafter(t, 1)]})
+            elif tag != "exact":
+                cases.append({"pid": pid, "origin": "float-boundary:" + tag, "nt": nt, "cfgs": [four[0], four[3]],
+                              "thresholds": [math.nextafter(t, 0), t, math.nextafter(t, 1)]})
     elif pid == "C09":
         for gi, (origin, T) in enumerate(U.mixed_family(rng, n_enum, n_rand, big=False)):
             n_min = 6 if tier != "thorough" else 10
@@ -742,6 +866,8 @@ def gen_cases(pid, tier, seed):
             fam.append(("relaxed", U.rand_graph(rng, n_nodes=rng.randint(3, 7), n_triples=rng.randint(4, 14), n_classes=2,
                                                 n_props=rng.randint(2, 3), p_bnode=0.3, bnode_objects=False)))
         for gi, (fk, T) in enumerate(fam):
+            if gi % 3 == 0:            # literals whose text is the IRI / blank-node label of a node of the graph
+                T = U.add_url_literals(T, rng, n=rng.randint(1, 3))
             for j in range(3):
                 cfg = _merge(_mode_cfg(modes[(gi + j) % 3]), {} if j == 0 else _switch_combo(rng))
                 cases.append({"pid": pid, "origin": fk, "nt": U.to_nt(T), "cfg": cfg, "t": (0, 0.5, 1)[(gi + j) % 3],
@@ -798,6 +924,28 @@ def gen_cases(pid, tier, seed):
             two = rng.sample(sels[:4], 2)
             cases.append({"pid": pid, "kind": "shapemap", "origin": "shapemap", "nt": U.to_nt(T), "cfg": inv, "t": 0,
                           "items": [{"sel": two[0], "label": U.ALT_SHAPES_NS + "L1"}, {"sel": two[1], "label": U.ALT_SHAPES_NS + "L2"}]})
+        n_mixed = max(8, (n_enum + n_rand) // 8)
+        for gi in range(n_mixed):
+            custom = gi % 2 == 1
+            pi = U.PI_ISA if custom else M.RDF_TYPE
+            T = U.rand_graph(rng, n_nodes=rng.randint(3, 7), n_triples=rng.randint(4, 16), n_classes=rng.randint(2, 3),
+                             n_props=rng.randint(2, 3), p_bnode=0.0, p_typed=0.8, pi=pi,
+                             extra_props=(M.RDF_TYPE,) if custom else ())
+            typed = U.dedup([s.iri for (s, p, o) in T if p == pi])
+            subjects = U.dedup([s.iri for (s, p, o) in T])
+            props = U.dedup([p for (s, p, o) in T if p not in (pi, M.RDF_TYPE)])
+            classes = U.dedup([o.iri for (s, p, o) in T if p == pi])
+            sels = [{"form": "node", "node": rng.choice(typed)}, {"form": "node", "node": rng.choice(subjects), "prefixed": True},
+                    {"form": "focus-po", "p": pi, "o": rng.choice(classes)} if custom else {"form": "focus-type", "cls": rng.choice(classes)}]
+            if props:
+                sels.append({"form": "focus-subj", "p": rng.choice(props)})
+            base = _merge({"instantiation_property": U.PI_ISA} if custom else {}, {"inverse_paths": True} if gi % 4 >= 2 else {})
+            for si, sel in enumerate(sels):
+                cases.append({"pid": pid, "kind": "mixed", "origin": "mixed", "nt": U.to_nt(T), "cfg": base, "t": (0, 0.5)[si % 2],
+                              "items": [{"sel": sel, "label": U.ALT_SHAPES_NS + "L1"}]})
+            if len(sels) > 3:
+                cases.append({"pid": pid, "kind": "mixed", "origin": "mixed", "nt": U.to_nt(T), "cfg": base, "t": 0,
+                              "items": [{"sel": sels[2], "label": U.ALT_SHAPES_NS + "L1"}, {"sel": sels[3], "label": U.ALT_SHAPES_NS + "L2"}]})
     else:
         raise ValueError("unknown property %r" % pid)
     return cases
@@ -809,7 +957,8 @@ RULES = {
            "lib/graphspec; NONLITERAL-merged figures skipped; non-trivial = output has a shape with a constraint",
     "C02": "per (graph, config) every threshold of {0,1/3,.5,.51,2/3,1} U {k/N(C)}: printed key set == keys of spec.cand(C,t) (float "
            "semantics n/N >= t), no duplicate key, printed shapes subset of classes with instances and every class with a non-reference "
-           "candidate printed",
+           "candidate printed; plus a fixed float-boundary family (one class, N in {25,41,50,100}, k instances with the "
+           "property, (k/N)*N != k in doubles): key present iff float(k)/float(N) >= t at t = k/N and its two neighbouring doubles",
     "C12": "per (graph, config) all ordered pairs of the threshold grid with fresh Shapers: keys/shapes at t2 subset of those at t1, figures "
            "of facts present at both identical (NONLITERAL figures and, with disable_exact_cardinality, '+' lines excluded)",
     "C09": "per (graph, config, t): permuted (exhaustive <= 5 triples, else >= 6 sampled) and blank-node-renamed documents; evidence set "
@@ -820,14 +969,17 @@ RULES = {
            "equal / only the documented cardinality rewrites; decimals: printed ratio == exact 100n/N rounded half-even or half-up",
     "C14": "(G inverse off) vs (G inverse on): shapes, counts, direct constraints with figures and comments identical; inverse constraints "
            "of G == non-literal direct constraints of reverse(G) (rdf:type and literal triples unreversed), strict on IRI-only graphs, "
-           "IRI/BNode figures only on graphs with blank nodes",
+           "IRI/BNode figures only on graphs with blank nodes; a third of the graphs carry literals whose text is the IRI / _:label of a "
+           "node (must never count as a link)",
     "C16": "instances_cap=k for k in 1..maxN+1: figures and keys equal graphspec.compute(cap=k), cap >= every class == no cap; "
            "namespaces_to_ignore=ns: output equals the output on the graph without predicates that are direct children of ns "
            "(rdf:type kept), incl. deeper predicates and nested namespace lists",
     "C10": "target_classes as full/<bracketed>/prefixed IRIs give equal outputs that match the oracle; all_classes_mode: shapes == classes "
            "with instances; custom instantiation property: oracle with pi=ex:isa (rdf:type ordinary); shape maps (node, prefixed node, "
            "{FOCUS a C}, {FOCUS p _}, {_ p FOCUS}, SPARQL): instance count == number of distinct nodes denoted on the abstract triples; "
-           "figures and keys checked against an oracle over the selected node sets when the counts agree",
+           "figures and keys checked against an oracle over the selected node sets when the counts agree; all_classes_mode combined "
+           "with a shape map (rdf:type and custom instantiation property): label shapes have exactly the selector's nodes AND every "
+           "class has its shape with N(C), figures/keys against an oracle in which a node carries labels and classes",
 }
 
 
@@ -976,7 +1128,7 @@ def _mutants():
                         for card in self._class_profile_dict[ck][pk][tk]:
                             occ = self._class_profile_dict[ck][pk][tk][card]
                             fr = self._compute_frequency(n, occ)
-                            if accept(fr, acceptance_threshold):
+                            if accept(fr, acceptance_threshold, occ, n):
                                 sts.append(Statement(st_property=pk, st_type=tk, cardinality=card, probability=fr, n_occurences=occ))
                 yield Shape(name=name, class_uri=ck, statements=sts, n_instances=int(n))
         return f
@@ -1055,7 +1207,62 @@ def _mutants():
         rfs.RatioFreqSerializer.__init__ = init
         return lambda: setattr(rfs.RatioFreqSerializer, "__init__", old_init)
 
+    def min_occ_builder(pos, inverse):
+        def f(self, acceptance_threshold, class_key, number_of_instances):
+            out = []
+            prof = self._class_profile_dict[class_key][pos]
+            min_occurences = acceptance_threshold * number_of_instances
+            for pk in prof:
+                for tk in prof[pk]:
+                    for card in prof[pk][tk]:
+                        occ = prof[pk][tk][card]
+                        if occ >= min_occurences:
+                            out.append(Statement(st_property=pk, st_type=tk, cardinality=card, n_occurences=occ, is_inverse=inverse,
+                                                 probability=self._compute_frequency(number_of_instances, occ)))
+            return out
+        return f
+
+    def patch_min_occurences():
+        undo = [setattr_patch(dss.DirectShexingStrategy, "_yield_base_shapes_direction_aware",
+                              yield_base(lambda fr, t, occ, n: occ >= t * n))(),
+                setattr_patch(diss.DirectAndInverseShexingStrategy, "_build_base_direct_statements", min_occ_builder(0, False))(),
+                setattr_patch(diss.DirectAndInverseShexingStrategy, "_build_base_inverse_statements", min_occ_builder(1, True))()]
+        return lambda: [u() for u in undo]
+
+    import shexer.core.instances.mix.mixed_instance_tracker as mit
+
+    def integrate_overwrite(self, reference_dict, new_dict, new_tracker):
+        original_classes = self._find_all_classes_in_dict(reference_dict)
+        for an_instance, classes in new_dict.items():
+            reference_dict[an_instance] = [self._get_label_for_ambiguous_class(a_class=c, tracker=new_tracker)
+                                           if c in original_classes else c for c in classes]
+
+    def relevant_by_str(self, an_instance):
+        return str(an_instance) in self._i_dict
+
+    def target_object_by_str(self, a_triple):
+        str_obj = str(a_triple[2])
+        str_prop = a_triple[1].iri
+        type_subj = self._decide_type_elem(a_triple[0], str_prop)
+        subj_shapes = [] if type_subj != "IRI" else self._decide_shapes_elem(a_triple[0].iri)
+        self._introduce_needed_elements_in_shape_instances_dict_for_obj(str_obj=str_obj, str_prop=str_prop,
+                                                                        type_subj=type_subj, subj_shapes=subj_shapes)
+        self._i_dict[str_obj][2][str_prop][type_subj] += 1
+        for a_shape in subj_shapes:
+            self._i_dict[str_obj][2][str_prop][a_shape] += 1
+
+    def patch_literal_links():
+        undo = [setattr_patch(afds.AbstractFeatureDirectionStrategy, "_is_relevant_instance", relevant_by_str)(),
+                setattr_patch(irfs.IncludeReverseFeaturesStrategy, "_annotate_target_object", target_object_by_str)()]
+        return lambda: [u() for u in undo]
+
     return [
+        ("C10", "MixedInstanceTracker._integrate_dicts overwrites the labels the shape map gave a node",
+         setattr_patch(mit.MixedInstanceTracker, "_integrate_dicts", integrate_overwrite)),
+        ("C14", "_is_relevant_instance without IRI/BNode type check, _annotate_target_object keyed by str(): literals count as links",
+         patch_literal_links),
+        ("C02", "threshold filter rewritten as n_occurences >= acceptance_threshold * number_of_instances (IEEE boundary)",
+         patch_min_occurences),
         ("C13", "decimals=2 truncates instead of rounding", patch_decimals),
         ("C13", "all_instances_are_compliant_mode relaxes every constraint, also those at 100 %",
          setattr_patch(ass.AbstractShexingStrategy, "_modify_cardinalities_of_statements_non_compliant_with_all_instances", relax_all)),
@@ -1066,9 +1273,9 @@ def _mutants():
         ("C01", "_annotate_target_subject counts every triple twice",
          setattr_patch(afds.AbstractFeatureDirectionStrategy, "_annotate_target_subject", subj_plus_two)),
         ("C02", "DirectShexingStrategy filters with > instead of >=",
-         setattr_patch(dss.DirectShexingStrategy, "_yield_base_shapes_direction_aware", yield_base(lambda fr, t: fr > t or t == 0))),
+         setattr_patch(dss.DirectShexingStrategy, "_yield_base_shapes_direction_aware", yield_base(lambda fr, t, occ, n: fr > t or t == 0))),
         ("C12", "DirectShexingStrategy ignores the threshold from 0.5 upwards",
-         setattr_patch(dss.DirectShexingStrategy, "_yield_base_shapes_direction_aware", yield_base(lambda fr, t: t >= 0.5 or fr >= t))),
+         setattr_patch(dss.DirectShexingStrategy, "_yield_base_shapes_direction_aware", yield_base(lambda fr, t, occ, n: t >= 0.5 or fr >= t))),
         ("C09", "ClassProfiler drops the first relevant triple of property p/p0 it meets (order dependent)",
          setattr_patch(cp.ClassProfiler, "_build_shape_of_instances", build_skip_first)),
         ("C13", "disable_comments additionally removes the last constraint of a shape",
